@@ -2856,7 +2856,10 @@ impl Typer {
                 }
 
                 if !field_map.is_empty() {
-                    let extra = field_map.keys().cloned().collect::<Vec<_>>().join(", ");
+                    // `field_map` is a HashMap: sort so that the message is the same in every process.
+                    let mut extra_fields = field_map.keys().cloned().collect::<Vec<_>>();
+                    extra_fields.sort();
+                    let extra = extra_fields.join(", ");
                     super::util::push_error(
                         diagnostics,
                         format!(
